@@ -149,7 +149,7 @@ class Program:
             cur = {q for q, f in self.funcs.items() if f.parent == pq and q.startswith(pre) and '#' not in q}
             ref = {q for q in base if q.startswith(pre) and '.<' not in q[len(pre):] and '#' not in q}
             gone, new = sorted(ref - cur), sorted(cur - ref)
-            if len(gone) == 1 and not new:
+            if gone and not new:
                 # moved out: the parent now calls a new module-level function (called from nowhere else) where it used to call the nested one
                 mod_tree = self.mods[F.mod][1]
                 cands = []
@@ -163,10 +163,21 @@ class Program:
                                   for x in ast.walk(top) if x is not f2.node)
                     if inside and not outside:
                         cands.append((q2, f2))
-                if len(cands) == 1:
-                    q2, f2 = cands[0]
-                    self.funcs[gone[0]] = Func(gone[0], f2.mod, None, f2.node, None, f2.path)
-                    out[q2] = gone[0]
+                # pair by name (`_resolve_location` is `resolve_location`), then a single leftover on each side
+                pairs = []
+                left_g, left_c = list(gone), list(cands)
+                for g in list(left_g):
+                    bare = g[len(pre):-1].strip('_')
+                    hit = [c for c in left_c if c[1].node.name.strip('_') == bare]
+                    if len(hit) == 1:
+                        pairs.append((g, hit[0]))
+                        left_g.remove(g)
+                        left_c.remove(hit[0])
+                if len(left_g) == 1 and len(left_c) == 1:
+                    pairs.append((left_g[0], left_c[0]))
+                for g, (q2, f2) in pairs:
+                    self.funcs[g] = Func(g, f2.mod, None, f2.node, None, f2.path)
+                    out[q2] = g
                 continue
             if len(gone) != 1 or len(new) != 1:
                 continue
